@@ -2,6 +2,7 @@ package c06
 
 import (
 	"fmt"
+	"reflect"
 	"strings"
 	"testing"
 
@@ -61,6 +62,25 @@ func TestTypeDirected(t *testing.T) {
 		}
 		s.Finish(t)
 		in := s.Instantiate()
+		// now and then slice points already hold elements when the start begins: they must be replaced, not extended
+		prefilled := rapid.IntRange(0, 3).Draw(t, "prefillslices") == 0
+		if prefilled {
+			for k, c := range s.Cons {
+				obj := reflect.ValueOf(in.Comps[s.ConsumerIndex(k)]).Elem()
+				for i, f := range c.Fields {
+					ft := pop.Types[f.Type]
+					if ft.Kind() == reflect.Slice && (ft.Elem().Kind() == reflect.Interface || ft.Elem().Kind() == reflect.Pointer) {
+						for _, pk := range zoo.ProviderKinds[:9] {
+							cand := reflect.ValueOf(pk.New(&zoo.Beh{ID: -5}))
+							if cand.Type().AssignableTo(ft.Elem()) {
+								obj.Field(i + 1).Set(reflect.Append(reflect.MakeSlice(ft, 0, 2), cand, cand))
+								break
+							}
+						}
+					}
+				}
+			}
+		}
 		in.Run()
 		desc := s.Shape()
 		if in.Out.Panic != nil {
@@ -81,6 +101,16 @@ func TestTypeDirected(t *testing.T) {
 		}
 		labels := []string{"verdict/" + verdict.String()}
 		nt := false
+		if prefilled && in.Out.Err == nil {
+			// a point without any admissible component is left untouched: its pre-filled content is not the container's doing
+			for k := range s.Cons {
+				for _, p := range g.Points[in.Comp(s.ConsumerIndex(k))] {
+					if len(p.Cands) == 0 && p.Multi {
+						p.FieldValue().Set(reflect.Zero(p.Field.Type))
+					}
+				}
+			}
+		}
 		if in.Out.Err == nil {
 			// sound + complete; ranking among several candidates is C08's subject
 			if err := graph.CheckWiringOpt(g, graph.WiringOpts{Complete: true}); err != nil {
